@@ -381,6 +381,7 @@ fn stateful(t: &mut Tape, rec: &mut Rec<'_>) {
     let nops = 3 + t.upto(rec.size(8, 16));
     let mut log = Vec::new();
     let (mut reregistered, mut auths) = (false, 0);
+    let mut invalid_requests = 0;
     for step in 0..nops {
         match t.weighted(&[3, 2, 4]) {
             0 => {
@@ -436,8 +437,19 @@ fn stateful(t: &mut Tape, rec: &mut Rec<'_>) {
                 let validate = t.bool_p(2, 3);
                 let ctx_json = semit::value_json_explicit(&V::Rec(c.req.context.clone()));
                 let ents_json = semit::entities_json_explicit(&c.world);
+                // a quarter of the calls: a principal of a type the action does not apply to (only request validation objects)
+                let mut principal = c.req.principal.clone();
+                if t.bool_p(1, 4) {
+                    let a = c.rs.action(&c.req.action).unwrap();
+                    let bad: Vec<&str> = c.rs.entity_types.iter().map(|e| e.name.as_str()).filter(|n| !a.principals.iter().any(|p| p == n)).collect();
+                    if !bad.is_empty() {
+                        let k = t.upto(bad.len());
+                        principal = s::gen_uid_of(t, &c.rs, bad[k]);
+                        invalid_requests += 1;
+                    }
+                }
                 let mut call = Map::new();
-                call.insert("principal".into(), json!({"type": c.req.principal.ty, "id": c.req.principal.id}));
+                call.insert("principal".into(), json!({"type": principal.ty, "id": principal.id}));
                 call.insert("action".into(), json!({"type": c.req.action.ty, "id": c.req.action.id}));
                 call.insert("resource".into(), json!({"type": c.req.resource.ty, "id": c.req.resource.id}));
                 call.insert("context".into(), ctx_json.clone());
@@ -457,7 +469,7 @@ fn stateful(t: &mut Tape, rec: &mut Rec<'_>) {
                     };
                     let act = bridge::euid(&c.req.action);
                     let ctx = Context::from_json_value(ctx_json.clone(), schema.as_ref().map(|s| (s, &act))).map_err(|e| format!("context: {e}"))?;
-                    let rq = Request::new(bridge::euid(&c.req.principal), act.clone(), bridge::euid(&c.req.resource), ctx, if validate { schema.as_ref() } else { None }).map_err(|e| format!("request: {e}"))?;
+                    let rq = Request::new(bridge::euid(&principal), act.clone(), bridge::euid(&c.req.resource), ctx, if validate { schema.as_ref() } else { None }).map_err(|e| format!("request: {e}"))?;
                     let ents = Entities::from_json_value(ents_json.clone(), schema.as_ref()).map_err(|e| format!("entities: {e}"))?;
                     let ps = payloads[pk].api.as_ref().map_err(|e| e.clone())?;
                     Ok(norm(&Authorizer::new().is_authorized(&rq, ps, &ents), &|s: &str| s.to_string()))
@@ -478,6 +490,7 @@ fn stateful(t: &mut Tape, rec: &mut Rec<'_>) {
     let _ = &mut payloads;
     rec.label_if(reregistered, "re-registration");
     rec.label_if(auths >= 2, "authorizations>=2");
+    rec.label_if(invalid_requests > 0, "invalid-request");
     rec.nontrivial = reregistered && auths >= 2;
     rec.set_key(&log);
     rec.render(|| log.join("\n"));
@@ -679,7 +692,7 @@ pub fn property() -> Property {
         assumptions: &["the documented composition of API calls is the reference", "FFI caches are thread-local: names are namespaced per case"],
         subs: vec![
             SubCheck { name: "authorize", cases: (20_000, 400_000), tape_len: 4500, run: authorize, min_labels: &[("map-ids", 4000), ("json-policy", 4000), ("template-link", 2000), ("validateRequest=false", 4000), ("invalid-request", 2000), ("expect-failure", 2000), ("expect-success", 8000)] },
-            SubCheck { name: "stateful", cases: (6_000, 120_000), tape_len: 6000, run: stateful, min_labels: &[("re-registration", 2000), ("authorizations>=2", 3000)] },
+            SubCheck { name: "stateful", cases: (6_000, 120_000), tape_len: 6000, run: stateful, min_labels: &[("re-registration", 2000), ("authorizations>=2", 3000), ("invalid-request", 1500)] },
             SubCheck { name: "validate-convert", cases: (8_000, 160_000), tape_len: 3500, run: validate_convert, min_labels: &[("validation:errors", 1500), ("validation:clean", 1500)] },
             cli_subcheck(),
         ],
